@@ -366,7 +366,7 @@ where
 /// Confirmation obligation (DESIGN §3): one symbolically chosen operation from
 /// an arbitrary Inv_R state, followed by an optional peek and a fixed-width
 /// read; only *observable* results of the continuation are asserted.
-pub fn confirm<E: VE, W: RW, const CAP: usize>()
+pub fn confirm<E: VE, W: RW, const CAP: usize>(opfix: u8)
 where
     u64: CastableInto<W>,
     DT<W>: CastableInto<u64> + Copy,
@@ -374,7 +374,7 @@ where
 {
     let le = E::LITTLE;
     let (mut r, g) = any_reader::<E, W, CAP>(12);
-    let op: u8 = kani::any();
+    let op: u8 = if opfix == 255 { kani::any() } else { opfix };
     kani::assume(op < 6);
     let a: usize = kani::any();
     // position after the first operation, when it succeeds
@@ -418,41 +418,54 @@ where
             }
         }
     }
-    let do_peek: bool = kani::any();
-    if do_peek {
-        let m: usize = kani::any();
-        kani::assume(m >= 1 && m <= W::NBITS);
-        if let Ok(pw) = r.peek_bits(m) {
-            let v = W::bb_to128(pw);
-            kani::assert(v >> m == 0, "OBS confirm: peeked value < 2^m");
+    // continuation: two rounds of (optional peek, short read); a stale bit left
+    // in the buffer by the first operation becomes visible when a later refill
+    // ORs a new word onto it
+    let mut p1 = p1;
+    let mut round = 0;
+    let mut peeked = false;
+    while round < 2 {
+        let do_peek: bool = kani::any();
+        if do_peek {
+            let m: usize = kani::any();
+            kani::assume(m >= 1 && m <= W::NBITS);
+            if let Ok(pw) = r.peek_bits(m) {
+                peeked = true;
+                let v = W::bb_to128(pw);
+                kani::assert(v >> m == 0, "OBS confirm: peeked value < 2^m");
+                let j: usize = kani::any();
+                if j < m {
+                    kani::assert(
+                        field_bit(le, v as u64, m, j) == g.o.stream_bit(le, p1 + j),
+                        "OBS confirm: a later peek returns the stream's bits",
+                    );
+                }
+            } else {
+                return;
+            }
+        }
+        let n: usize = kani::any();
+        kani::assume(n <= 2 * W::NBITS && n <= 64);
+        if let Ok(v) = r.read_bits(n) {
+            kani::assert(v & !low_mask(n) == 0, "OBS confirm: read value < 2^n");
             let j: usize = kani::any();
-            if j < m {
+            if j < n {
                 kani::assert(
-                    field_bit(le, v as u64, m, j) == g.o.stream_bit(le, p1 + j),
-                    "OBS confirm: a later peek returns the stream's bits",
+                    field_bit(le, v, n, j) == g.o.stream_bit(le, p1 + j),
+                    "OBS confirm: a later read returns the stream's bits",
                 );
             }
+            p1 += n;
+            kani::assert(
+                r.bit_pos() == Ok(g.o.base * W::NBITS as u64 + p1 as u64),
+                "OBS confirm: position after the continuation",
+            );
         } else {
             return;
         }
+        round += 1;
     }
-    let n: usize = kani::any();
-    kani::assume(n <= 64);
-    if let Ok(v) = r.read_bits(n) {
-        kani::assert(v & !low_mask(n) == 0, "OBS confirm: read value < 2^n");
-        let j: usize = kani::any();
-        if j < n {
-            kani::assert(
-                field_bit(le, v, n, j) == g.o.stream_bit(le, p1 + j),
-                "OBS confirm: a later read returns the stream's bits",
-            );
-        }
-        kani::assert(
-            r.bit_pos() == Ok(g.o.base * W::NBITS as u64 + (p1 + n) as u64),
-            "OBS confirm: position after the continuation",
-        );
-    }
-    kani::cover!(op == 3 && do_peek, "confirm reachable");
+    kani::cover!(peeked, "confirm reachable");
 }
 
 macro_rules! harness {
@@ -480,11 +493,18 @@ macro_rules! rd_for {
             harness!(c02_clone, 18, clone_::<$e, $w, $cap>());
             harness!(c07_bit_pos, 18, bit_pos::<$e, $w, $cap>());
             harness!(c07_set_bit_pos, 18, set_bit_pos::<$e, $w, $cap>());
-            harness!(c02_confirm, 18, confirm::<$e, $w, $cap>());
+            harness!(c02_confirm, 18, confirm::<$e, $w, $cap>(255));
+            harness!(c02_confirm_read_bits, 18, confirm::<$e, $w, $cap>(0));
+            harness!(c02_confirm_peek_bits, 18, confirm::<$e, $w, $cap>(1));
+            harness!(c02_confirm_skip_bits_after_peek, 18, confirm::<$e, $w, $cap>(2));
+            harness!(c02_confirm_read_unary, 18, confirm::<$e, $w, $cap>(3));
+            harness!(c02_confirm_skip_bits, 18, confirm::<$e, $w, $cap>(4));
+            harness!(c02_confirm_set_bit_pos, 18, confirm::<$e, $w, $cap>(5));
         }
     };
 }
 
+#[cfg(feature = "m_reader")]
 pub mod be {
     use super::*;
     rd_for!(BE, u8, u8_, 12);
@@ -492,6 +512,7 @@ pub mod be {
     rd_for!(BE, u32, u32_, 6);
     rd_for!(BE, u64, u64_, 5);
 }
+#[cfg(feature = "m_reader")]
 pub mod le {
     use super::*;
     rd_for!(LE, u8, u8_, 12);
